@@ -113,9 +113,9 @@ PLANS["C05"] = {
              "values wider than the width), plus every history of <= L steps over fixed 9-/8-operation alphabets; after EVERY step: content vs model, tail invariant via AsRef<[u64]>, "
              "==/serialized bytes/count_ones vs a freshly built vector; distinct = digest of the operation-kind sequence (and width); non-trivial = at least 2 steps"),
     "legs": {
-        "quick": [leg("rel", 16), leg("dbg", 16), leg("miri", 8, "raw_exh", of=512, budget=600),
+        "quick": [leg("rel", 16), leg("dbg", 16), leg("miri", 8, "raw_exh", of=512, budget=600), leg("miri", 6, "int", budget=1200, scale=10),
                    leg("fuzz", 3, "raw", runs=15000), leg("fuzz", 3, "int", runs=15000)],
-        "thorough": [leg("rel", 16), leg("dbg", 16), leg("rel-nobmi", 8), leg("miri", 12, "raw_exh", of=128, budget=4000), leg("miri", 8, "int_exh", of=128, budget=4000),
+        "thorough": [leg("rel", 16), leg("dbg", 16), leg("rel-nobmi", 8), leg("miri", 12, "raw_exh", of=128, budget=4000), leg("miri", 8, "int_exh", of=128, budget=4000), leg("miri", 12, "int", budget=8000, scale=10), leg("miri", 6, "raw", budget=8000, scale=10),
                       leg("fuzz", 8, "raw", runs=400000), leg("fuzz", 8, "int", runs=400000), leg("fuzz-dbg", 4, "raw", runs=300000), leg("fuzz-dbg", 4, "int", runs=300000)],
     },
     "require": {
